@@ -215,9 +215,11 @@ Fixpoint sync_sets (l : list cset) (s : sets) : sets * bool :=
 Definition stale_policy_chains (pols : list cpolicy) (t : table) : list str :=
   filter (fun c => has_prefix plcy_prefix c && negb (mem c (map (fun cp => policy_chain (cp_np cp)) pols))) (chain_names t).
 
-Definition policy_batch (pols : list cpolicy) (stale : list str) : list line :=
+Definition policy_batch_head (pols : list cpolicy) (stale : list str) : list line :=
   map (fun cp => LChain (policy_chain (cp_np cp))) pols ++ map LChain stale ++
-  flat_map (fun cp => map (LAppend (policy_chain (cp_np cp))) (policy_chain_rules cp)) pols ++ map LDelete stale.
+  flat_map (fun cp => map (LAppend (policy_chain (cp_np cp))) (policy_chain_rules cp)) pols.
+Definition policy_batch (pols : list cpolicy) (stale : list str) : list line :=
+  policy_batch_head pols stale ++ map LDelete stale.
 
 (** syncRules; the boolean is false when some batch/command was refused *)
 Definition sync_rules (pols : list cpolicy) (k : kernel) : kernel * bool :=
